@@ -80,6 +80,22 @@ pub fn all() -> Vec<Scenario> {
             steps: vec![step(), Step { fail: vec!["J2"], ..step() }, step()],
         },
         Scenario {
+            name: "D11-skipped-ephemeral-below-late-failure",
+            about: "C07: Eph0 -> Out2 (<- Out1) -> Eph4 -> Out5 -> Out6, Out2 -> Out7, Eph0 -> Always3; Eph0 re-run for Always3 fails: every never-started job below it is upstream-failed, not skipped",
+            conv: Conv::Plain,
+            nodes: vec![
+                ("J0", Ephemeral, vec!["J0"], vec![], 1000),
+                ("J1", Output, vec!["J1"], vec![], 1000),
+                ("J2", Output, vec!["J2"], vec!["J0", "J1"], 1000),
+                ("J3", Always, vec!["J3"], vec!["J0"], 1000),
+                ("J4", Ephemeral, vec!["J4"], vec!["J2"], 1000),
+                ("J5", Output, vec!["J5"], vec!["J4"], 1000),
+                ("J6", Output, vec!["J6"], vec!["J5"], 1000),
+                ("J7", Output, vec!["J7"], vec!["J2"], 1000),
+            ],
+            steps: vec![step(), Step { fail: vec!["J0"], ..step() }, step()],
+        },
+        Scenario {
             name: "D5-textual-compare-of-ephemeral-records",
             about: "C15/C04: validated Ephemeral re-executed (new stamp) while another consumer was upstream-failed; that consumer must not be re-executed next time",
             conv: Conv::Stamped,
